@@ -115,7 +115,8 @@ pub fn gen_c01(tier: &str, seed: u64) -> Vec<Vec<String>> {
         let mut clock = Clock::new(&mut r);
         let nops = r.range(3, if tier == "thorough" { 120 } else { 40 });
         let mut seq = 0u64;
-        for _ in 0..nops {
+        let mut had_huge = false;
+        for i in 0..nops {
             match r.below(12) {
                 0 => c.push(format!("ROT {} -", clock.tick(&mut r))),
                 1 => {
@@ -134,8 +135,9 @@ pub fn gen_c01(tier: &str, seed: u64) -> Vec<Vec<String>> {
                         6 => cap.unwrap_or(10).min(300) + 1,
                         _ => r.range(1, 30),
                     };
-                    // now and then a record far above every buffer the crate keeps between records
-                    let len = if r.chance(1, 120) { *r.pick(&[20_000u64, 70_000, 140_000]) } else { len };
+                    // now and then a record far above every buffer the crate keeps between records — only
+                    // near the end of a history (every later READ repeats it) and once per history
+                    let len = if !had_huge && i + 4 >= nops && r.chance(1, 30) { had_huge = true; *r.pick(&[20_000u64, 70_000, 140_000]) } else { len };
                     c.push(format!("W {} {} -", hex(&record(seq, len.max(1))), clock.tick(&mut r)));
                     seq += 1;
                     if cap.is_none() && r.chance(1, 3) {
